@@ -9,7 +9,7 @@ ID = "C20"
 RULE = ("Mode M: EVERY duplicate-free ordered variable list of length 1..3 over ids {'a','b','ue'(unicode),7,0,'7'} x every bounds choice from "
         "{(0,1),(-2,3),(-2,5),(1,1),(3,3),(-1,3)} (equal hash sums included; length 3: the first four, length 4: the first two) x every dictionary over a subset of the ids with/without an "
         "unknown id x default_value in {None, callable} x dtype in {int64,int32,int16,float64,float32,float16,longdouble} for construct(); every sub-list (ordered, and nested "
-        "lists of lists) of every context for boolean/integer from_list; every 0/1 mask for to_list (1-D and 2-D); boolean/integer variable "
+        "lists of lists) of every context for boolean/integer from_list; every 0/1 mask and every vector over {-1,0,1,2} for 1-D to_list, every 0/1 matrix of <=3 rows and <=6 entries for 2-D to_list and stacked for 3-D; boolean/integer variable "
         "index partition for every list; A / b / to_linalg on every 2x2 system of the C11 space. oracle: the statement, literally. "
         "non-trivial = distinct case with at least one given and one defaulted position")
 ASSUMPTIONS = ["ids are duplicate-free (stated); dictionary values are distinct small integers (one of them 0) so that permutations and falsy values are visible"]
@@ -227,6 +227,32 @@ def check_lists(part, tier, acc):
             if len(got) != len(want) or any(g is not w and (g.id != w.id or g.bounds != w.bounds) for g, w in zip(got, want)) or \
                     [(_k(g.id), g.bounds.as_tuple()) for g in got] != [(_k(w.id), w.bounds.as_tuple()) for w in want]:
                 acc.violation(None, case, {"what": "to_list does not return exactly the variables at the 1-entries", "got": repr(got), "want": repr(want)})
+        # EVERY 0/1 matrix of 1..3 rows with at most 6 entries (empty rows first, in the middle, last; all-zero matrices), and each
+        # of them stacked on its reverse as a 3-D array
+        for r_ in (1, 2, 3):
+            if r_ * n > 6:
+                continue
+            for bits in itertools.product((0, 1), repeat=r_ * n):
+                mat = np.array(bits).reshape(r_, n)
+                acc.n("traces")
+                acc.n("transitions", 2)
+                case = {"kind": "to_list_matrix", "ctx": ctx, "matrix": mat.tolist()}
+                try:
+                    got2 = pnd.boolean_ndarray(mat.copy(), variables=variables).to_list()
+                    got3 = pnd.boolean_ndarray(np.array([mat, mat[::-1]]), variables=variables).to_list()
+                except BaseException as e:
+                    acc.violation(None, case, {"what": "2-D / 3-D to_list raised", "exc": repr(e)})
+                    continue
+                want2 = [[_k(variables[j].id) for j in range(n) if row[j] == 1] for row in mat.tolist()]
+                ok2 = isinstance(got2, list) and len(got2) == r_ and [[_k(g.id) for g in row] for row in got2] == want2
+                ok3 = (isinstance(got3, list) and len(got3) == 2 and all(isinstance(b_, list) and len(b_) == r_ for b_ in got3)
+                       and [[[_k(g.id) for g in row] for row in b_] for b_ in got3] == [want2, want2[::-1]])
+                if not ok2 or not ok3:
+                    acc.violation(None, case, {"what": "2-D / 3-D to_list does not return one list per row with exactly the variables at the 1-entries",
+                                               "got_2d": repr(got2)[:300], "want_2d": repr(want2), "three_d_ok": ok3})
+                    continue
+                if not mat[-1].any() and mat.any():
+                    acc.nontriv(("tlm", tuple(map(str, ctx)), bits))
         if n >= 2:
             two = np.array([masks[1], masks[-2], masks[len(masks) // 2], wide[len(wide) // 2], wide[-2]])
             got = pnd.boolean_ndarray(two, variables=variables, index=[puan.variable(f"r{i}") for i in range(5)]).to_list()
